@@ -91,7 +91,7 @@ def r01b(model: Model, rr: RuleResult):
     if len(w) == 2 and any("_advance_width" in norm(x.value) for x in w) and any(norm(x.value) == "font_config.width" for x in w):
         rr.ok("ColorGlyph.create: width = _advance_width(view_box, config) when a viewBox exists, else config.width")
     else:
-        rr.bad(cfi, cfi.node, "glyph advance is not assigned from _advance_width / config.width", construct="ColorGlyph.create: base_glyph.width")
+        rr.bad_shape(cfi, cfi.node, "glyph advance is not assigned from _advance_width / config.width", construct="ColorGlyph.create: base_glyph.width")
 
 
 # ---------------------------------------------------------------------------------------------
@@ -200,7 +200,7 @@ def r01c(model: Model, rr: RuleResult):
     if len(pops) == 1 and pops[0].args and norm(pops[0].args[0]) == "0" and apps and childloop and "reversed" not in norm(childloop[0].iter):
         rr.ok("Paint.breadth_first is FIFO (pop(0) + append) over children() in order")
     else:
-        rr.bad(bfi, bfi.node, "Paint.breadth_first no longer visits siblings in order (FIFO)", construct="breadth_first: frontier discipline")
+        rr.bad_shape(bfi, bfi.node, "Paint.breadth_first no longer visits siblings in order (FIFO)", construct="breadth_first: frontier discipline")
     classes = extract(model)
     pcl = classes["PaintColrLayers"]
     v = pcl.ufo_keys.get("Layers")
@@ -420,7 +420,7 @@ def rnest(model: Model, rr: RuleResult):
     if len(sites) == 1 and all(len(c.args) == 2 and not (isinstance(c.args[1], ast.Call) and norm(c.args[1].func) == "PaintGlyph") for c in others):
         rr.ok("write_font: exactly one transformed(reuse transform, PaintGlyph(...)) site")
     else:
-        rr.bad(wf, wf.node, "the reuse wrapper is no longer the single transform above a PaintGlyph", construct="_update_paint_glyph: transformed(..., PaintGlyph) sites")
+        rr.bad_shape(wf, wf.node, "the reuse wrapper is no longer the single transform above a PaintGlyph", construct="_update_paint_glyph: transformed(..., PaintGlyph) sites")
     # mutating_traverse only rewrites PaintGlyph nodes in _update_paint_glyph
     first = wf.body[0]
     if isinstance(first, ast.If) and "PaintGlyph.format" in norm(first.test) and any(isinstance(s, ast.Return) for s in first.body):
